@@ -187,24 +187,28 @@ def run(ctx) -> None:
         floor=18,
     )
     ie = P.cls("InotifyEvent")
+    # decided on the predicates' truth tables over the masks 0 and every single IN_* bit (emit.inotify_predicate_tables: the getter
+    # evaluated abstractly, helper methods and other properties included), not on how the test is spelled
+    from ..emit import inotify_constants, inotify_predicate_tables
+
+    consts_ = inotify_constants(P)
+    tables = inotify_predicate_tables(P)
     for name, mfi in sorted(ie.methods.items()):
         rets = [n.value for n in ast.walk(mfi.node) if isinstance(n, ast.Return) and n.value is not None]
-        if name.startswith("is_") and name != "is_directory":
-            want = "IN_" + name[3:].upper()
-            r = rets[0] if len(rets) == 1 else None
-            ok = (
-                isinstance(r, ast.Compare)
-                and len(r.ops) == 1
-                and ((isinstance(r.ops[0], ast.Gt) and ast.unparse(r.comparators[0]) == "0") or (isinstance(r.ops[0], ast.NotEq) and ast.unparse(r.comparators[0]) == "0"))
-                and isinstance(r.left, ast.BinOp)
-                and isinstance(r.left.op, ast.BitAnd)
-                and {ast.unparse(r.left.left), ast.unparse(r.left.right)} == {"self._mask", f"InotifyConstants.{want}"}
-            )
-            ctx.check(ok, RPd, f"InotifyEvent.{name}", f"returns `{ast.unparse(r) if r is not None else None}`; expected `self._mask & InotifyConstants.{want} > 0`: every record of that kind is misclassified", mfi.loc)
-        elif name == "is_directory":
-            r = rets[0] if len(rets) == 1 else None
-            parts = {ast.unparse(v) for v in r.values} if isinstance(r, ast.BoolOp) and isinstance(r.op, ast.Or) else set()
-            ctx.check(parts == {"self.is_delete_self", "self.is_move_self", "self._mask & InotifyConstants.IN_ISDIR > 0"}, RPd, "InotifyEvent.is_directory", f"returns `{ast.unparse(r) if r is not None else None}`; expected DELETE_SELF or MOVE_SELF or the ISDIR bit (the flavour of every event follows it)", mfi.loc)
+        if name.startswith("is_"):
+            if name == "is_directory":
+                want_mask = consts_.get("IN_DELETE_SELF", 0) | consts_.get("IN_MOVE_SELF", 0) | consts_.get("IN_ISDIR", 0)
+                what = "DELETE_SELF or MOVE_SELF or the ISDIR bit (the flavour of every event follows it)"
+            else:
+                want_mask = consts_.get("IN_" + name[3:].upper())
+                what = f"`mask & InotifyConstants.IN_{name[3:].upper()} > 0`: every record of that kind is misclassified"
+            tab = tables.get(name)
+            if want_mask is None:
+                continue  # a predicate without a flag of the same name is not part of this rule
+            if tab is None:
+                raise AnalysisError(f"InotifyEvent.{name}: the getter could not be evaluated abstractly (returns `{ast.unparse(rets[0]) if rets else None}`)")
+            wrong = [m for m, v in tab.items() if bool(v) != bool(m & want_mask) or not isinstance(v, bool)]
+            ctx.check(not wrong, RPd, f"InotifyEvent.{name}", f"returns `{ast.unparse(rets[0]) if len(rets) == 1 else '...'}`, which is {tab.get(wrong[0]) if wrong else None!r} for mask {wrong[0] if wrong else 0:#x}; expected {what}", mfi.loc)
         elif name in ("wd", "mask", "cookie", "name", "src_path"):
             ok = len(rets) == 1 and ast.unparse(rets[0]) == f"self._{name}"
             ctx.check(ok, RPd, f"InotifyEvent.{name}", f"returns `{ast.unparse(rets[0]) if rets else None}` instead of the stored field", mfi.loc)
@@ -223,6 +227,10 @@ def run(ctx) -> None:
     from .c14 import generators as _c14_generators
 
     _c14_generators(ctx, RSYN, RSYN, P)
+    from .c02 import visits_every_entry as _vee
+
+    RVW = ctx.rule("C03/walks-visit-every-entry", "no loop of the reader or of the initial installation grows or shrinks the list it is iterating (instances shared with C02): a sibling skipped by the contents walk of a new directory gets no created event although it exists", floor=1)
+    _vee(ctx, RVW)
     # ---- synthetic flag ownership
     from ..fixtures import FX_SYNTH, must_fire, synthetic_marks
 
